@@ -31,6 +31,7 @@ type Walker struct {
 	total       int
 	keys        []string
 	invalid     string // reason why the next command is constructed as invalid ("" = not)
+	settle      bool   // small-pool history that has not yet moved to an odd branch
 }
 
 func NewWalker(w *core.World, opts gen.NameOpts, weights map[string]int) *Walker {
@@ -42,6 +43,7 @@ func NewWalker(w *core.World, opts gen.NameOpts, weights map[string]int) *Walker
 		// ends next to the trimmed twin, names beyond 112 bytes that are prefixes of each other): with few names the
 		// history is likely to switch to one of them and keep working there
 		q := strings.Repeat("q", 111)
+		k.settle = true
 		k.BranchNames = []string{"main", "a", "a.tmp", "a.lock", "main.tmp", "a: b", "a: b: c", "ref: refs/heads/a", "x y", "topic", "topic ", " topic", "q:r", "100%s", q, q + "r", q + "rs"}
 	}
 	for a, wgt := range weights {
@@ -87,6 +89,14 @@ func BigNames(r *rand.Rand, n int) []string {
 func (k *Walker) Populate(n int) []string {
 	names := BigNames(k.R, n)
 	k.W.EditMany(names, int64(k.R.IntN(1000)))
+	if idTwins(); twinBlobs && twinTs {
+		// among them, contents whose blob ids, and directories whose tree ids, share their first 32 bits
+		k.W.Write("idtwin/a.txt", twinBlobA)
+		k.W.Write("idtwin/b.txt", twinBlobB)
+		k.W.Write("idtwin/ta/f", twinTreeA)
+		k.W.Write("idtwin/tb/f", twinTreeB)
+		names = append(names, "idtwin/a.txt", "idtwin/b.txt", "idtwin/ta/f", "idtwin/tb/f")
+	}
 	k.W.C.Count("scale.populated-histories")
 	return names
 }
@@ -203,6 +213,24 @@ func (k *Walker) BoundaryFiles(dir string) []string {
 	}
 	k.W.C.Count("scale.boundary-file-histories")
 	return out
+}
+
+// DeepPaths writes files beneath very deep and very long paths (all legal: every component is below NAME_MAX, the
+// whole below PATH_MAX): 140 nested directories, and paths of about 1 200 and 2 600 bytes.
+func (k *Walker) DeepPaths() []string {
+	long := func(n int) string {
+		var parts []string
+		for i := 0; i < n; i++ {
+			parts = append(parts, fmt.Sprintf("%c%s", 'a'+rune(i%26), strings.Repeat("n", 229)))
+		}
+		return strings.Join(parts, "/")
+	}
+	ps := []string{"deep/" + strings.Repeat("d/", 140) + "leaf.txt", "deep/" + strings.Repeat("d/", 128) + "at-128.txt", "long/" + long(5) + "/f.txt", "long/" + long(11) + "/g.txt"}
+	for _, p := range ps {
+		k.W.Write(p, []byte("deep "+fmt.Sprint(len(p))+"\n"))
+	}
+	k.W.C.Count("scale.deep-path-histories")
+	return ps
 }
 
 // goit runs a command, attaching the pending "constructed as invalid" tag if any.
@@ -520,6 +548,19 @@ func (k *Walker) onePathArg(cmd string) (string, string) {
 func (k *Walker) Step() {
 	if k.total == 0 {
 		return
+	}
+	if k.settle && k.Weights["switch-c"] > 0 {
+		// the small-pool histories move to an oddly named branch as soon as there is a commit, and work there
+		if k.W.State().Repo().HeadCommit() != "" {
+			k.settle = false
+			odd := []string{"topic ", " topic", "a: b", "a.tmp", "x y", "a: b: c", "q:r", "100%s", "main.tmp"}
+			name := odd[k.R.IntN(len(odd))]
+			k.goit("switch", "-c", name)
+			// deleting the branch one is on must be refused, under whatever name
+			k.invalid = "delete-current-branch"
+			k.goit("branch", "-d", name)
+			return
+		}
 	}
 	x := k.R.IntN(k.total)
 	for _, a := range k.keys {
